@@ -278,14 +278,14 @@ impl<'ast> Visit<'ast> for ItemFinder {
 
 struct MacroFinder {
     name: String,
-    hits: Vec<(TokenStream, Option<R>)>,
+    hits: Vec<(TokenStream, Option<R>, Option<R>)>,
 }
 
 impl<'ast> Visit<'ast> for MacroFinder {
     fn visit_macro(&mut self, m: &'ast syn::Macro) {
         if path_last_ident(&m.path).as_deref() == Some(self.name.as_str()) {
             let rg = span_of(&m.tokens);
-            self.hits.push((m.tokens.clone(), rg));
+            self.hits.push((m.tokens.clone(), rg, span_of(m)));
         }
         syn::visit::visit_macro(self, m);
     }
@@ -358,7 +358,7 @@ fn run_selector(file: &syn::File, sel: &str) -> String {
                 None => format!("{{\"found\":false,\"count\":{}}}", f.hits.len()),
             }
         }
-        "macrotokens" | "inmacro" => {
+        "macrotokens" | "inmacro" | "macrocall" => {
             let (head, inner) = match rest.split_once('|') {
                 Some((h, i)) => (h, Some(i)),
                 None => (rest, None),
@@ -366,9 +366,17 @@ fn run_selector(file: &syn::File, sel: &str) -> String {
             let (name, k) = split_index(head);
             let mut mf = MacroFinder { name: name.to_string(), hits: vec![] };
             mf.visit_file(file);
-            let Some((ts, rg)) = mf.hits.get(k) else {
+            let Some((ts, rg, whole)) = mf.hits.get(k) else {
                 return format!("{{\"found\":false,\"count\":{}}}", mf.hits.len());
             };
+            if kind == "macrocall" {
+                // the whole invocation `name!(..)` / `name!{..}` (without a trailing semicolon)
+                return format!(
+                    "{{\"found\":true,\"count\":{},\"ranges\":{}}}",
+                    mf.hits.len(),
+                    json_ranges(&[("whole", *whole)])
+                );
+            }
             if kind == "macrotokens" {
                 return format!(
                     "{{\"found\":true,\"count\":{},\"ranges\":{}}}",
